@@ -101,6 +101,9 @@ type Inst struct {
 	gauge       int
 	nProm       int
 	nDem        int
+	demoteGen   int
+	mkDemote    func(gen int) func()
+	demoteBody  func(gen int)
 	terms       []*Term
 	healthIdx   int
 	lastObs     bool
@@ -285,8 +288,17 @@ func (in *Inst) create() error {
 			time.Sleep(in.spec.PromoteLinger)
 		}
 	})
-	el.OnDemote(func() {
+	in.mkDemote = func(gen int) func() {
+		return func() { in.demoteBody(gen) }
+	}
+	in.demoteBody = func(gen int) {
 		w.lock()
+		if gen != in.demoteGen {
+			// a callback the application has replaced since (script item "reregister")
+			w.ev(Ev{K: "demote.stale", I: id})
+			w.unlock()
+			return
+		}
 		in.nDem++
 		ls, lt := w.leadersNow()
 		w.ev(Ev{K: "demote", I: id, B: el.IsLeader(), Leaders: ls, LTok: lt, Rec: parseRec(w.store.Live(in.group(), w.now()))})
@@ -295,8 +307,14 @@ func (in *Inst) create() error {
 		w.signal()
 		if in.spec.DemoteDur > 0 {
 			time.Sleep(in.spec.DemoteDur)
+			// an application that takes its time in the callback and then looks at the
+			// election (Status takes the election's read lock: whoever invoked the callback
+			// must not be holding that mutex, a writer may have queued up meanwhile)
+			_ = el.Status()
+			w.evL(Ev{K: "demote.done", I: id})
 		}
-	})
+	}
+	el.OnDemote(in.mkDemote(0))
 	return nil
 }
 
@@ -523,6 +541,15 @@ func (w *World) callAPI(in *Inst, it *Item) string {
 		was := in.el.IsLeader()
 		ok := in.el.ValidateTokenOrDemote(ctx)
 		return fmt.Sprintf("%v|was=%v|now=%v|tok=%s", ok, was, in.el.IsLeader(), tok)
+	case "reregister":
+		// the application replaces its demotion callback while the election runs: from now
+		// on the new one, and only the new one, is to be invoked
+		w.lock()
+		in.demoteGen++
+		g := in.demoteGen
+		w.unlock()
+		in.el.OnDemote(in.mkDemote(g))
+		return "nil"
 	case "status":
 		s := in.el.Status()
 		return fmt.Sprintf("%s|%v|%s|%s|%d", s.State, s.IsLeader, s.LeaderID, s.Token, s.Revision)
